@@ -6,7 +6,8 @@ set -u
 patch=$(realpath "$1"); shift
 wt=/tmp/vtry.$$
 git -C /repo worktree add -q --detach "$wt" HEAD || exit 9
-trap 'git -C /repo worktree remove --force "$wt"; rm -rf /verif/run/alt-* /verif/bin/alt-*' EXIT
+tag=$(python3 -c "import hashlib,os,sys;print(hashlib.sha1(os.path.realpath(sys.argv[1]).encode()).hexdigest()[:8])" "$wt")
+trap 'git -C /repo worktree remove --force "$wt"; rm -rf /verif/run/alt-$tag /verif/bin/alt-$tag' EXIT
 if ! git -C "$wt" apply "$patch" 2>/dev/null; then
   # hooks and fixes committed after the seed was written moved the context: retry with fuzz
   if ! (cd "$wt" && patch -p1 --fuzz=3 -s < "$patch"); then echo "PATCH DOES NOT APPLY"; exit 8; fi
